@@ -404,10 +404,9 @@ fn gen(rng: &mut Rng, tier: Tier, out: &mut Vec<String>) {
         let wf = dw as f32;
         let hf = dh as f32;
         for smp in ["cl", "on", "rep"] {
-            if smp == "rep" && !(dw.is_power_of_two() && dh.is_power_of_two()) {
-                continue;
-            }
-            let us = [0.0, 1.5, wf - 2.0, ulp_dn(wf), wf, 1e9, -3.0, f32::NAN, f32::INFINITY, rng.f32_in(0.0, wf)];
+            // (for `rep` on a non-power-of-two size, of any magnitude, `SamplerRepeatPot::new` must panic:
+            // before 597c789 it tested the rounded f32 width and accepted 33554431 and 16777217)
+            let us = [-1.0, 0.0, 1.5, wf - 2.0, ulp_dn(wf), wf, 1e9, -3.0, f32::NAN, f32::INFINITY, rng.f32_in(0.0, wf)];
             for (i, u) in us.iter().enumerate() {
                 let v = if i % 2 == 0 { 0.0 } else if smp == "on" { (hf - 1.0).max(0.0) } else { 1e9 };
                 out.push(format!("wide {smp} {dw} {dh} {} {}", h32(*u), h32(v)));
